@@ -34,6 +34,8 @@ fn client_err_text(e: &ClockBoundError) -> String {
         ClockBoundErrorKind::SegmentNotInitialized => "notinit",
         ClockBoundErrorKind::SegmentMalformed => "malformed",
         ClockBoundErrorKind::CausalityBreach => "causality",
+        #[allow(unreachable_patterns)]
+        _ => "other",
     };
     let d = if e.detail.is_empty() { "-".to_string() } else { e.detail.replace(' ', "_") };
     format!("err {} {} {}", k, e.errno.0, d)
@@ -159,6 +161,12 @@ fn gen_write(rng: &mut Rng, mono_now: &mut (i64, i64)) -> (String, Rec) {
     // the daemon stamps as_of with "now" and void_after 1000 s later (sometimes a shorter validity, so that the
     // thresholds are crossed inside one session); time moves on between publications
     *mono_now = add_ns(mono_now.0, mono_now.1, rng.pick(&[1i64, 1_000, NS, 3 * NS, 7 * NS, 900 * NS, 1200 * NS]));
+    // one publication in eight is what a freshly (re)started daemon writes before chronyd has answered:
+    // as-of 0/0, void-after 1000/0, bound 0, status Unknown (nothing was measured yet)
+    if rng.chance(1, 8) {
+        let drift = rng.pick(&[1000i64, 50_000]);
+        return (format!("w 0 0 1000 0 0 {} 0", drift), Rec { as_s: 0, as_ns: 0, va_s: 1000, va_ns: 0 });
+    }
     let (as_s, as_ns) = *mono_now;
     let (va_s, va_ns) = match rng.below(4) { 0 => add_ns(as_s, as_ns, rng.pick(&[5 * NS, 6 * NS, 8 * NS, 20 * NS])), _ => (as_s + 1000, 0) };
     let bound = rng.pick(&[0i64, 1, 10_000, 1_000_000, 123_456_789]);
@@ -253,6 +261,9 @@ pub fn grid() -> Vec<String> {
     // thousands of times: they stay on the segment they mapped and keep (and age) what they had
     v.push(format!("session w 100 0 1100 0 10000 50000 1 ; o ; co ; {} ; x 3 200 0 1200 0 777 1000 1 ; qn 2100 1700000000 5 101 0 ; cqn 2100 1700000000 5 101 0 ; {} ; w 102 0 1102 0 9 1000 2 ; qn 1100 1700000000 5 102 5 ; cqn 1100 1700000000 5 102 5", q(100, 5), q(101, 1)));
     v.push(format!("session w 100 0 1100 0 10000 50000 1 ; o ; co ; {} ; x 8 200 0 1200 0 777 1000 1 ; qn 2100 1700000000 5 101 0 ; cqn 2100 1700000000 5 101 0 ; o ; co ; {}", q(100, 5), q(201, 0)));
+    // a daemon restart while chronyd is away: the restarted daemon's first publications are the "nothing measured
+    // yet" record; long-lived clients must take it (Unknown at once, and still Unknown later)
+    v.push(format!("session w 100 0 1100 0 10000 50000 1 ; o ; co ; {} ; w 0 0 1000 0 0 50000 0 ; {} ; {} ; w 0 0 1000 0 0 50000 0 ; {} ; w 108 0 1108 0 20000 50000 1 ; {}", q(100, 5), q(101, 0), q(106, 300_000_000), q(107, 0), q(108, 5)));
     // no publication yet: open must fail (generation 0)
     v.push(format!("session o ; co ; {} ; w 100 0 1100 0 10000 50000 1 ; o ; co ; {}", q(100, 5), q(100, 6)));
     v
